@@ -186,7 +186,7 @@ type WalletImmediateCase struct {
 
 func phaseWalletImmediate(r *mon.Run) {
 	for p := 0; p < 3; p++ {
-		c := WalletImmediateCase{Phase: "wallet-immediate", Index: p, Iterations: r.Pick(150, 1500), Perturb: p, KeySeed: r.RNG(0xF800 + uint64(p)).Uint64()}
+		c := WalletImmediateCase{Phase: "wallet-immediate", Index: p, Iterations: r.Pick(150, 500), Perturb: p, KeySeed: r.RNG(0xF800 + uint64(p)).Uint64()}
 		if p == 0 {
 			r.Sample(c)
 		}
